@@ -26,6 +26,9 @@ TR == [t |-> "trimR"]
 R13 == [t |-> "range", a |-> Lit(IntV(1)), b |-> Lit(IntV(3))]
 X == <<120>>
 AB == <<97, 98>>
+INC == <<105, 46, 108, 105, 113>>       \* i.liq, registered in the engine's cache next to the template
+IncBody == <<T(<<40, 32>>), TL, Ob(Var(X)), TR, T(<<32, 41>>)>>
+TopPath == <<116, 46, 108, 105, 113>>
 Progs == <<
   (* 1 text only: the only write is the final flush *) <<T(AB)>>,
   (* 2 *) <<T(AB), Ob(Var(X)), T(<<99>>)>>,
@@ -48,10 +51,27 @@ Progs == <<
   <<[t |-> "for", tag |-> "for", var |-> X, coll |-> R13,
      body |-> <<Ob(Var(X)), [t |-> "if", branches |-> <<[c |-> [t |-> "cmp", op |-> "<", a |-> Var(X), b |-> Lit(IntV(3))], body |-> <<T(<<99>>), [t |-> "continue"]>>]>>], T(<<33>>)>>]>>,
   (* 15 tablerow left by continue *)
-  <<[t |-> "for", tag |-> "tablerow", var |-> X, coll |-> R13, body |-> <<Ob(Var(X)), [t |-> "continue"], T(<<110>>)>>]>>
+  <<[t |-> "for", tag |-> "tablerow", var |-> X, coll |-> R13, body |-> <<Ob(Var(X)), [t |-> "continue"], T(<<110>>)>>]>>,
+  (* 16 include: the included text arrives in one write; hyphens inside the file *)
+  <<T(<<97, 32>>), [t |-> "include", e |-> Lit(Str(INC))], T(<<32, 98>>), [t |-> "include", e |-> Lit(Str(INC))]>>,
+  (* 17 case / when / else inside a loop *)
+  <<[t |-> "for", tag |-> "for", var |-> X, coll |-> R13,
+     body |-> <<[t |-> "case", e |-> Var(X), pre |-> <<>>, whens |-> <<[vals |-> <<Lit(IntV(1))>>, body |-> <<T(<<119>>)>>],
+                                                                       [vals |-> <<Lit(IntV(2))>>, body |-> <<>>],
+                                                                       [else |-> TRUE, vals |-> <<>>, body |-> <<Ob(Var(X))>>]>>]>>]>>,
+  (* 18 unless / else, comment, hyphens on block tags *)
+  <<T(<<97, 32>>), TL, [t |-> "if", neg |-> TRUE, branches |-> <<[c |-> Lit(Bool(FALSE)), body |-> <<T(<<32, 117>>)>>], [c |-> [t |-> "else"], body |-> <<T(<<101>>)>>]>>],
+    [t |-> "comment", s |-> <<32, 122, 32>>], T(<<32, 99>>), TL, Ob(Var(X)), TR, T(<<32, 10>>)>>,
+  (* 19 tablerow with hyphens in its body and an empty row *)
+  <<[t |-> "for", tag |-> "tablerow", var |-> X, coll |-> R13, cols |-> Lit(IntV(1)), body |-> <<TR, T(<<32>>), Ob(Var(X)), T(<<32>>), TL>>],
+    [t |-> "for", tag |-> "tablerow", var |-> X, coll |-> Var(<<101>>), body |-> <<Ob(Var(X))>>]>>,
+  (* 20 a capture inside a loop, printed in the loop; an assign in between *)
+  <<[t |-> "for", tag |-> "for", var |-> X, coll |-> R13,
+     body |-> <<[t |-> "capture", name |-> <<99>>, body |-> <<T(<<91>>), Ob(Var(X)), T(<<93>>)>>],
+                [t |-> "assign", name |-> <<100>>, e |-> Var(<<99>>)], Ob(Var(<<100>>))>>], T(<<10>>)>>
 >>
 Env2 == << <<X, Str(<<88>>)>>, <<<<108>>, Arr(<<IntV(1), Str(<<50>>), Nil, IntV(3)>>)>>, <<<<101>>, Arr(<<>>)>> >>
-Cx == [Cx0 EXCEPT !.pol = [Intended EXCEPT !.flushErr = FlushPolicy]]
+Cx == [Cx0 EXCEPT !.pol = [Intended EXCEPT !.flushErr = FlushPolicy], !.path = TopPath, !.cache = << <<INC, IncBody>> >>]
 
 Ref(i) == Render(Cx, Progs[i], EnvOf(Env2))
 Calls(i) == Run(Cx, InitSt(Progs[i], EnvOf(Env2), Sink0, Cx)).sink.calls
@@ -72,5 +92,6 @@ NoCallAfterFault == [][st.sink.failed => st'.sink = st.sink]_vars
 Terminates == st.steps < 200
 
 EmitCase == (st.status # "run" /\ p.k = 1 /\ p.keep = 0) =>
-              PrintT(ToJson([id |-> "fault-" \o ToString(p.i), kind |-> "fault", prog |-> Progs[p.i], env |-> Env2]))
+              PrintT(ToJson([id |-> "fault-" \o ToString(p.i), kind |-> "fault", prog |-> Progs[p.i], env |-> Env2,
+                             path |-> TopPath, usedir |-> TRUE, cache |-> << <<INC, IncBody>> >>]))
 =============================================================================
